@@ -40,6 +40,22 @@ impl<'mir> MirCompilerPass<'_> for InterfaceVerifier<'mir> {
                         InterfaceNode::Function(f) => {
                             functions.add_ident(&f.ident, from);
 
+                            // The AST pass only sees the interfaces of the compiled file;
+                            // methods inherited from an included file are checked here.
+                            let mut names = HashSet::new();
+                            for param in &f.params {
+                                let (idlc_mir::Param::In { ident, .. }
+                                | idlc_mir::Param::Out { ident, .. }) = param;
+                                if !names.insert(ident.to_string()) {
+                                    idlc_errors::unrecoverable!(
+                                        "Function `{}::{}` has duplicate parameter `{}`",
+                                        from.ident,
+                                        f.ident,
+                                        ident
+                                    );
+                                }
+                            }
+
                             let mut args_array_in = false;
                             let mut args_value_in = false;
                             let mut args_array_out = false;
